@@ -56,11 +56,16 @@ fn corrupt_delta(code: u32, d: &mut Delta) -> &'static str {
         8 => { d.basis_size = u64::MAX; for op in d.ops.iter_mut() { if let DeltaOp::Copy { offset, .. } = op { *offset = u64::MAX - 2; break; } } "copy near u64::MAX" }
         9 => { d.checksum = StrongHash::zero(); "checksum zeroed" }
         10 => { d.source_size = u64::MAX; "source_size = u64::MAX" }
+        12 => { let mut b = *d.checksum.as_bytes(); b[20] ^= 0x01; d.checksum = StrongHash::from_bytes(b); "one bit of checksum byte 20 flipped" }
+        13 => { let mut b = *d.checksum.as_bytes(); b[31] ^= 0x80; d.checksum = StrongHash::from_bytes(b); "one bit of checksum byte 31 flipped" }
+        14 => { let mut b = *d.checksum.as_bytes(); b[8] ^= 0x10; d.checksum = StrongHash::from_bytes(b); "one bit of checksum byte 8 flipped" }
         _ => { for op in d.ops.iter_mut() { if let DeltaOp::Literal(v) = op { if !v.is_empty() { v[0] ^= 0x40; } break; } } "literal byte flipped" }
     }
 }
 pub const NSIG: u32 = 9;
-pub const NDELTA: u32 = 12;
+pub const NDELTA: u32 = 15;
+pub const NSYNC: u32 = 20;
+pub const NEDGE: u32 = 8;
 
 fn data(seed: u64) -> (Vec<u8>, Vec<u8>) {
     let basis = crate::engine_w::gen(0, 5000 + (seed % 3000) as usize, seed);
@@ -98,6 +103,68 @@ fn case(stage: u8, code: u32, seed: u64) -> Option<String> {
             }
             if stage == 2 && out != src { return Some("signature -> delta -> patch through files did not reproduce the source".into()); }
         } else if stage == 2 { return Some(format!("`copia patch` failed on an unmodified chain: {}", o.stderr)); }
+        None
+    })();
+    let _ = std::fs::remove_dir_all(&d);
+    r
+}
+
+/// C01 single-file sync: `copia sync SRC DST` (AsyncCopiaSync::sync_files) must leave DST byte-identical to SRC and exit 0,
+/// for the shapes the property names (reordered / repeated blocks, same length with no new bytes, empty, shorter, longer).
+fn sync_case(code: u32, seed: u64) -> Option<String> {
+    let d = tmp(&format!("sync-{code}-{seed}"));
+    let bs: usize = if code % 2 == 0 { 512 } else { 2048 };
+    let blk = |i: u64| crate::engine_w::gen(0, bs, seed * 31 + i);
+    let cat = |v: &[Vec<u8>]| v.concat();
+    let (b0, b1, b2, b3) = (blk(0), blk(1), blk(2), blk(3));
+    let (basis, src, what): (Option<Vec<u8>>, Vec<u8>, &str) = match code / 2 {
+        0 => (None, cat(&[b0.clone(), b1.clone()]), "destination absent"),
+        1 => (Some(cat(&[b0.clone(), b1.clone(), b2.clone()])), cat(&[b1.clone(), b0.clone(), b2.clone()]), "two blocks swapped (same length, no new bytes)"),
+        2 => (Some(cat(&[b0.clone(), b1.clone(), b2.clone()])), cat(&[b0.clone(), b0.clone(), b2.clone()]), "a block repeated in place of another (same length, no new bytes)"),
+        3 => (Some(cat(&[b0.clone(), b1.clone(), b2.clone(), b3.clone()])), cat(&[b3.clone(), b2.clone(), b1.clone(), b0.clone()]), "blocks reversed"),
+        4 => { let mut s = cat(&[b0.clone(), b1.clone(), b2.clone()]); let k = (seed as usize * 131) % s.len(); s[k] ^= 0x21; (Some(cat(&[b0.clone(), b1.clone(), b2.clone()])), s, "one byte changed") }
+        5 => (Some(cat(&[b0.clone(), b1.clone(), b2.clone()])), cat(&[b0.clone(), b2.clone()]), "a block removed"),
+        6 => (Some(cat(&[b0.clone(), b1.clone()])), cat(&[b0.clone(), b3[..17].to_vec(), b1.clone()]), "17 bytes inserted at a block boundary"),
+        7 => (Some(cat(&[b0.clone(), b1.clone()])), vec![], "empty source"),
+        8 => (Some(vec![]), cat(&[b0.clone(), b1.clone()]), "empty destination"),
+        _ => (Some(cat(&[b0.clone(), b1.clone(), b2.clone()])), cat(&[b0.clone(), b1.clone(), b2.clone()]), "identical"),
+    };
+    std::fs::write(d.join("src"), &src).ok()?;
+    if let Some(b) = &basis { std::fs::write(d.join("dst"), b).ok()?; }
+    let bss = bs.to_string();
+    let o = run(&["sync", "-b", &bss, &p(&d, "src"), &p(&d, "dst")]);
+    let r = if o.crashed { Some(format!("`copia sync SRC DST` CRASHED (status {:?}); case: {what}, block size {bs}", o.code)) }
+        else if o.code != Some(0) { Some(format!("`copia sync SRC DST` failed (status {:?}: {}) on plain files; case: {what}, block size {bs}", o.code, o.stderr)) }
+        else { match std::fs::read(d.join("dst")) { Ok(got) if got == src => None,
+            Ok(got) => Some(format!("`copia sync SRC DST` exited 0 but DST ({} bytes) is not byte-identical to SRC ({} bytes); case: {what}, block size {bs}", got.len(), src.len())),
+            Err(e) => Some(format!("`copia sync SRC DST` exited 0 but DST cannot be read: {e}; case: {what}")) } };
+    let _ = std::fs::remove_dir_all(&d);
+    r
+}
+/// edge shapes of the file chain (C01 / C20): empty basis, empty source, one-byte files, exact multiples of the block size
+fn edge_case(code: u32, seed: u64) -> Option<String> {
+    let d = tmp(&format!("edge-{code}-{seed}"));
+    let g = |n: usize, k: u64| crate::engine_w::gen(0, n, seed + k);
+    let (basis, src, what): (Vec<u8>, Vec<u8>, &str) = match code {
+        0 => (vec![], g(3000, 1), "empty basis"),
+        1 => (g(3000, 1), vec![], "empty source"),
+        2 => (vec![], vec![], "empty basis and empty source"),
+        3 => (g(1, 1), g(1, 2), "one-byte files"),
+        4 => (g(2048, 1), g(2048, 1), "exactly two blocks, identical"),
+        5 => (g(1023, 1), g(1025, 1), "basis one byte short of a block"),
+        6 => (g(1024, 1), { let mut s = g(1024, 1); s.extend_from_slice(&g(1024, 1)); s }, "source = basis block twice"),
+        _ => (g(5000, 1), g(5000, 1)[2500..].to_vec(), "source = second half of the basis"),
+    };
+    std::fs::write(d.join("basis"), &basis).ok()?; std::fs::write(d.join("src"), &src).ok()?;
+    let r = (|| -> Option<String> {
+        let o = run(&["signature", &p(&d, "basis"), "-o", &p(&d, "b.sig"), "-b", "1024"]);
+        if o.code != Some(0) { return Some(format!("`copia signature` failed ({:?}: {}) on: {what}", o.code, o.stderr)); }
+        let o = run(&["delta", &p(&d, "src"), &p(&d, "b.sig"), "-o", &p(&d, "s.delta")]);
+        if o.code != Some(0) { return Some(format!("`copia delta` failed ({:?}: {}) on a signature file written by `copia signature`; case: {what}", o.code, o.stderr)); }
+        let o = run(&["patch", &p(&d, "basis"), &p(&d, "s.delta"), "-o", &p(&d, "out")]);
+        if o.code != Some(0) { return Some(format!("`copia patch` failed ({:?}: {}) on an unmodified chain; case: {what}", o.code, o.stderr)); }
+        let out = std::fs::read(d.join("out")).ok()?;
+        if out != src { return Some(format!("signature -> delta -> patch through files did not reproduce the source; case: {what}")); }
         None
     })();
     let _ = std::fs::remove_dir_all(&d);
@@ -142,11 +209,12 @@ fn byte_case(stage: u8, code: u32, seed: u64) -> Option<String> {
 pub fn search(contract: &str, seed: u64, as_twin: bool) -> i32 {
     if bin().is_none() { eprintln!("COPIA_BIN not set"); if as_twin { println!("CASES 0"); } return 0; }
     let mut cases = 0u64;
-    let stages: Vec<(u8, u32)> = if contract.contains("run_delta") { vec![(0, NSIG)] } else if contract.contains("run_patch") { vec![(1, NDELTA)] } else { vec![(2, 1), (0, NSIG), (1, NDELTA)] };
+    let stages: Vec<(u8, u32)> = if contract.contains("run_delta") { vec![(0, NSIG), (6, NEDGE)] } else if contract.contains("run_patch") { vec![(1, NDELTA)] } else { vec![(2, 1), (6, NEDGE), (5, NSYNC), (0, NSIG), (1, NDELTA)] };
     for (stage, n) in stages {
         for code in 0..n {
             cases += 1;
-            if let Some(what) = case(stage, code, seed) {
+            let r = match stage { 5 => sync_case(code, seed), 6 => edge_case(code, seed), _ => case(stage, code, seed) };
+            if let Some(what) = r {
                 println!("WITNESS {{\"kind\":\"cli\",\"stage\":{stage},\"code\":{code},\"seed\":{seed},\"what\":\"{}\"}}", what.replace('"', "'").replace('\n', " "));
                 if as_twin { println!("CASES {cases}"); }
                 return 1;
@@ -170,7 +238,7 @@ pub fn search(contract: &str, seed: u64, as_twin: bool) -> i32 {
 pub fn run_w(w: &str) -> i32 {
     let _ = json_str(w, "kind");
     let st = json_u64(w, "stage").unwrap_or(0) as u8;
-    let f = if st >= 3 { byte_case } else { case };
+    let f = match st { 5 => (|_s: u8, c: u32, sd: u64| sync_case(c, sd)) as fn(u8, u32, u64) -> Option<String>, 6 => |_s, c, sd| edge_case(c, sd), 3 | 4 => byte_case, _ => case };
     match f(st, json_u64(w, "code").unwrap_or(0) as u32, json_u64(w, "seed").unwrap_or(0)) {
         Some(what) => { println!("REPRODUCED: {what}"); 1 }
         None => { println!("not reproduced: the CLI reports an error or produces bytes matching the checksum"); 0 }
